@@ -53,6 +53,8 @@ def isLike : Ty → Ty → Bool
   | .array a n, o => (match o with | .arraylike b => isLike a b | _ => o == .array a n)
   | .arrayNamed a x, o => (match o with | .arraylike b => isLike a b | _ => o == .arrayNamed a x)
   | .endless a, o => (match o with | .arraylike b => isLike a b | _ => o == .endless a)
+  | .pointer a, o => (match o with | .pointer b => isLike a b | _ => o == .pointer a)
+  | .view a, o => (match o with | .view b => isLike a b | _ => o == .view a)
   | .struct i, o =>
     (match o with
      | .unresolved none => true
